@@ -81,6 +81,14 @@ Section P.
     hv (VTuple [VNone]) = hv (VTuple [VInt 4238894112]).
   Proof. simpl. do 3 f_equal. Qed.
 
+  (* F18: kinds are forgotten - a str, a path and bytes with one encoding hash alike, and so
+     does the empty sequence and the empty byte string; visible inside same-kind sequences *)
+  Theorem kind_confusion_refuted s :
+    hv (VTuple [VStr s]) = hv (VTuple [VPath s]) /\
+    hv (VTuple [VStr s]) = hv (VTuple [VBytes (utf8 s)]) /\
+    (utf8 [] = [] -> hv (VTuple [VTuple []]) = hv (VTuple [VBytes []])).
+  Proof. simpl. repeat split. intros E. rewrite E. reflexivity. Qed.
+
   (* ---------------------------------------------------------- signatures *)
   Theorem sig_path_node_iff a b : sig_path_node sha_hex utf8 fhash a = sig_path_node sha_hex utf8 fhash b <-> a = b.
   Proof.
